@@ -29,8 +29,8 @@ ASSUMPTIONS = [
     "schedules are those the OS produces under injected device delays; not enumerated",
     "a client whose connection times out is left open in the history (counted, not judged)",
 ]
-FLOORS = {"quick": {"evaluations": 200, "pending_overlap_pairs": 200, "apdus_attributed": 3000,
-                    "replies_matched": 200, "distinct": 4},
+FLOORS = {"quick": {"evaluations": 120, "pending_overlap_pairs": 150, "apdus_attributed": 1200,
+                    "replies_matched": 120, "distinct": 4},
           "thorough": {"evaluations": 8000, "pending_overlap_pairs": 8000,
                        "apdus_attributed": 100000, "replies_matched": 8000, "distinct": 100}}
 
